@@ -314,7 +314,7 @@ func ruleSetExponentArgs(w *World, r *RuleResult) {
 					ok = false
 					why = append(why, x.Name)
 				}
-			case "phi", "local":
+			case "phi", "local", "localfield":
 				for _, a := range x.Args {
 					chk(a)
 				}
